@@ -26,6 +26,8 @@ if [ -z "${SKIP_CONFIRM:-}" ]; then
   cleanup
 fi
 cd /verif
+export VERIF_EVIDENCE_DIR=/verif/work/mutant_evidence   # never overwrite the committed evidence with a run on a changed tree
+mkdir -p "$VERIF_EVIDENCE_DIR"
 git -C /repo apply "$PATCH" || { echo "APPLY: !! patch does not apply to /repo"; exit 2; }
 for ID in "$@"; do
   OUT=$(timeout 1500 ./check "$ID" quick 2>&1); RC=$?
